@@ -167,8 +167,6 @@ func (r *rt) lookup(name string, test bool) *types.XFunction {
 	return f
 }
 
-var arityErrRE = regexp.MustCompile(`need (at least )?\d+( to \d+)? argument\(s\), got \d+|takes (exactly three|one or three) arguments|requires an even number of arguments`)
-
 func classOf(v types.XValue) string {
 	if types.IsNil(v) {
 		return "null"
@@ -245,20 +243,23 @@ func trimTo(s string, n int) string {
 	return s
 }
 
-// postConditions renders a call's result the way a template (text) and a result/event (JSON) would:
-// a value that cannot be rendered crashes the host one step later.
-func (r *rt) postConditions(env envs.Environment, res types.XValue) (stage, p string) {
-	if p = mc.Guard(func() { types.ToXText(env, res) }); p != "" {
-		return "render-text", p
-	}
-	if p = mc.Guard(func() { types.ToXJSON(res) }); p != "" {
-		return "render-json", p
-	}
-	return "", ""
+// isArityError recognises the errors of the argument-count wrappers (functions/wrappers.go and the few
+// functions that count their arguments themselves); only used to count non-trivial calls honestly.
+func isArityError(msg string) bool {
+	return strings.Contains(msg, "argument(s), got ") || strings.Contains(msg, "takes exactly three arguments") ||
+		strings.Contains(msg, "takes one or three arguments") || strings.Contains(msg, "requires an even number of arguments")
 }
 
-// execCall executes one function/test call or one form.
-func (r *rt) execCall(d *decoder, dc decoded, acc *delta, fnCounter, okCounter string) {
+// hot-path counters of a group, flushed into the delta's maps by the caller
+type callCounts struct {
+	evals, arity, nontrivial, ok int64
+	outcomes                     map[string]int64
+}
+
+// execCall executes one function/test call or one form. After the call the result is rendered the way
+// a template (text) and a result/event (JSON) would: a value that cannot be rendered crashes the
+// host one step later.
+func (r *rt) execCall(d *decoder, dc decoded, acc *delta, cc *callCounts) {
 	args := make([]types.XValue, len(dc.ids))
 	for i, id := range dc.ids {
 		args[i] = r.vals[id]
@@ -271,43 +272,69 @@ func (r *rt) execCall(d *decoder, dc decoded, acc *delta, fnCounter, okCounter s
 	}
 	kind := "call"
 	var res types.XValue
-	var p string
+	stage := ""
+	var fn *types.XFunction
+	var ctx *types.XObject
 	if dc.form {
 		kind = "form"
 		props := map[string]types.XValue{"a": args[0]}
 		if len(args) > 1 {
 			props["b"] = args[1]
 		}
-		ctx := types.NewXObject(props)
-		p = mc.Guard(func() { res, _ = r.ev.Expression(env, ctx, dc.name) })
+		ctx = types.NewXObject(props)
 	} else {
-		fn := r.lookup(dc.name, dc.test)
-		p = mc.Guard(func() { res = fn.Call(env, args) })
+		fn = r.lookup(dc.name, dc.test)
 	}
-	acc.Counters["evaluations"]++
-	acc.Counters[fnCounter]++
-	stage := ""
-	if p == "" {
-		stage, p = r.postConditions(env, res)
-	}
+	p := mc.Guard(func() {
+		if fn != nil {
+			res = fn.Call(env, args)
+		} else {
+			res, _ = r.ev.Expression(env, ctx, dc.name)
+		}
+		if _, isErr := res.(*types.XError); !isErr {
+			stage = "render-text"
+			types.ToXText(env, res)
+			stage = "render-json"
+			types.ToXJSON(res)
+		}
+	})
+	cc.evals++
 	if p != "" {
 		cs := d.toCase(dc)
-		acc.Outcomes[kind+":panic"]++
-		acc.Counters["distinct_nontrivial"]++
+		cc.outcomes[kind+":panic"]++
+		cc.nontrivial++
 		acc.violation(panicKey(kind, dc.name, stage, p), fmt.Sprintf("panic evaluating %s\n%s", mc.JSON(cs), p), cs)
 		return
 	}
-	cls := classOf(res)
-	if cls == "error" && !dc.form && arityErrRE.MatchString(res.(*types.XError).Error()) {
-		acc.Outcomes["call:arity-error"]++
-		acc.Counters["calls_rejected_by_arity_check"]++
+	if xe, isErr := res.(*types.XError); isErr && xe != nil {
+		if fn != nil && isArityError(xe.Error()) {
+			cc.arity++
+			return
+		}
+		cc.nontrivial++
+		cc.outcomes[kind+":error"]++
 		return
 	}
-	acc.Counters["distinct_nontrivial"]++
-	acc.Outcomes[kind+":"+cls]++
-	if cls != "error" {
-		acc.Counters[okCounter]++
+	cc.nontrivial++
+	cc.ok++
+	cc.outcomes[kind+":"+classOf(res)]++
+}
+
+func (cc *callCounts) flushInto(acc *delta, fnCounter string) {
+	acc.Counters["evaluations"] += cc.evals
+	acc.Counters[fnCounter] += cc.evals
+	acc.Counters["distinct_nontrivial"] += cc.nontrivial
+	if cc.arity > 0 {
+		acc.Counters["calls_rejected_by_arity_check"] += cc.arity
+		acc.Outcomes["call:arity-error"] += cc.arity
 	}
+	if cc.ok > 0 {
+		acc.Counters["ok:"+fnCounter] += cc.ok
+	}
+	for k, v := range cc.outcomes {
+		acc.Outcomes[k] += v
+	}
+	*cc = callCounts{outcomes: map[string]int64{}}
 }
 
 type tplResult struct {
@@ -325,7 +352,7 @@ func (r *rt) execTemplate(dc decoded, acc *delta, wantSample bool) {
 	cs := Case{K: "tpl", S: s, Fam: dc.fam}
 	acc.Counters["evaluations"]++
 	acc.Counters["templates"]++
-	nontrivial := excellent.HasExpressions(s, r.smallTops) || excellent.HasExpressions(s, r.runTops)
+	nontrivial := excellent.HasExpressions(s, r.smallTops)
 	if nontrivial {
 		acc.Counters["distinct_nontrivial"]++
 		acc.Counters["templates_with_expression"]++
@@ -428,13 +455,17 @@ func (r *rt) runGroup(g Group, from int, skip map[int]bool, only []int, wantSamp
 	if g.Kind == "form" {
 		fnCounter = "form:" + g.Name
 	}
-	okCounter := "ok:" + fnCounter
+	cc := &callCounts{outcomes: map[string]int64{}}
 	partCounter := "cases_batch"
 	if g.Danger {
 		partCounter = "cases_predicted_dangerous"
 	}
+	var parted int64
 	emit := func(upto int, done bool) {
 		acc.Upto, acc.Done = upto, done
+		cc.flushInto(acc, fnCounter)
+		acc.Counters[partCounter] += parted
+		parted = 0
 		for id, n := range r.used {
 			if n > 0 {
 				acc.Facts["val:"+r.labels[id]] += n
@@ -454,7 +485,7 @@ func (r *rt) runGroup(g Group, from int, skip map[int]bool, only []int, wantSamp
 		pub(i)
 		switch g.Kind {
 		case "call", "form":
-			r.execCall(d, dc, acc, fnCounter, okCounter)
+			r.execCall(d, dc, acc, cc)
 			if wantSample && len(acc.Samples) == 0 && g.Arity >= 2 && n == 7 {
 				acc.Samples = append(acc.Samples, d.toCase(dc))
 			}
@@ -463,11 +494,12 @@ func (r *rt) runGroup(g Group, from int, skip map[int]bool, only []int, wantSamp
 			if dc.form {
 				fc = "xexp:form:" + dc.name
 			}
-			r.execCall(d, dc, acc, fc, "ok:"+fc)
+			r.execCall(d, dc, acc, cc)
+			cc.flushInto(acc, fc)
 		default:
 			r.execTemplate(dc, acc, wantSample)
 		}
-		acc.Counters[partCounter]++
+		parted++
 		n++
 		if n%16 == 0 && time.Since(last) > 100*time.Millisecond {
 			emit(i, false)
@@ -525,7 +557,9 @@ func (r *rt) runOne(g Group, cs Case, pub func(idx int), flush func(*delta)) str
 				fc = "xexp:form:" + cs.F
 			}
 		}
-		r.execCall(d, dc, acc, fc, "ok:"+fc)
+		cc := &callCounts{outcomes: map[string]int64{}}
+		r.execCall(d, dc, acc, cc)
+		cc.flushInto(acc, fc)
 	case "tpl":
 		r.execTemplate(dc, acc, false)
 	default:
